@@ -7,6 +7,10 @@ use std::pin::Pin;
 #[derive(Clone, Copy, PartialEq, Eq, Debug, Hash)]
 pub enum Op {
     Src,
+    /// async flavour: initial value awaited in the caller's block while the branch argument is built (`srca(ID).await`)
+    SrcAwait,
+    /// `->` on the plain value an awaited head yields (`tw(ID)`: Rv -> future); same events as `Then`
+    ThenW,
     Map,
     AndThen,
     OrElse,
